@@ -1,6 +1,7 @@
 package sst
 
 import (
+	"bytes"
 	"fmt"
 	"iter"
 	"math"
@@ -75,6 +76,15 @@ func NewLevelListFromDocument(fs storage.FileSystem, dataOwnership kv.DataOwners
 		for j, tableDoc := range levelDoc {
 			levels[i][j] = NewTableFromDocument(fs, dataOwnership, tableDoc)
 		}
+	}
+
+	// The document may be the concatenation of the documents of several
+	// instances (rescaling). Levels below L0 are binary-searched by key range,
+	// so their tables must be in key order whatever order the instances came in.
+	for i := 1; i < len(levels); i++ {
+		slices.SortStableFunc(levels[i], func(a, b *Table) int {
+			return bytes.Compare(a.startKey, b.startKey)
+		})
 	}
 
 	return NewLevelListOfTables(levels)
